@@ -17,7 +17,9 @@ def gen_desc(rng):
     fixed = rng.chance(0.15)
     no_crypto = rng.chance(0.15)
     seed = rng.rbytes(16) if (rng.chance(0.4) and not fixed) else None
-    prog = rng.pick([0x0004000000123400, 0x0004001000ABCD00, 0x0004000E00000000 | rng.getrandbits(24) << 8])
+    prog = rng.pick([0x0004000000123400, 0x0004001000ABCD00, 0x0004000E00000000 | rng.getrandbits(24) << 8,
+                     # any 64-bit value is a legal program id: top bit set, all ones, zero, only the top byte
+                     (1 << 63) | rng.getrandbits(48), (1 << 64) - 1 - rng.getrandbits(8), rng.getrandbits(64), 0xFF << 56])
     files = None
     if rng.chance(0.9):
         files = []
@@ -113,12 +115,29 @@ class NcchCheck(Check):
             dbfile = (1).to_bytes(4, 'little') + bytes(12) + desc['program_id'].to_bytes(8, 'little') + wrong + bytes(8)
             sdb.load_seeddb(io.BytesIO(dbfile))
             seed_arg = None
+        via_db = False
+        if mode == 'normal' and desc['seed'] is not None and case['seed'] % 3 == 1:
+            # the RIGHT seed does not come as an argument but through a seed database FILE (several entries, ours somewhere among
+            # them; sometimes written by save_seeddb from another in-memory database first)
+            via_db = True
+            others = Rng(case['seed'] + 31)
+            ents = [(others.getrandbits(64), others.rbytes(16)) for _ in range(others.randint(0, 3))]
+            ents.insert(others.randint(0, len(ents)), (desc['program_id'], desc['seed']))
+            dbfile = len(ents).to_bytes(4, 'little') + bytes(12) + b''.join(t.to_bytes(8, 'little') + sd + bytes(8) for t, sd in ents)
+            if case['seed'] % 2:
+                sdb.load_seeddb(io.BytesIO(dbfile))
+                out = io.BytesIO()
+                sdb.save_seeddb(out)
+                dbfile = out.getvalue()
+                envsetup.reset_seeddb()
+            sdb.load_seeddb(io.BytesIO(dbfile))
+            seed_arg = None
         base = io.BytesIO(file_bytes)
         base.seek(start)
         eng = e.CryptoEngine()
         mon, key = [], None
         outs, models = [], []
-        info_d = {'sibling content opened first:%s' % (case['seed'] % 2 == 0 and not assume): 1,
+        info_d = {'sibling content opened first:%s' % (case['seed'] % 2 == 0 and not assume): 1, 'right seed through a seeddb file:%s' % via_db: 1,
                   'method:%d' % desc['crypto_method']: 1, 'mode:' + mode: 1, 'seeded:%d' % (desc['seed'] is not None): 1,
                   'fixed:%d' % desc['fixed_key']: 1, 'nocrypto:%d' % desc['no_crypto']: 1}
         rd = None
@@ -140,6 +159,8 @@ class NcchCheck(Check):
         if db_history:
             seed_arg = bytes(x ^ 0x55 for x in desc['seed'])       # what the database now says: the model takes it as the argument
             info_d['wrong seed through the seed database after a correct open'] = 1
+        if via_db:
+            seed_arg = desc['seed']       # what the database says for this program id: the model takes it as the argument
         m = drv.ask(('ncch-open', file_bytes, start, seed_arg if seed_arg is not None else 'none', int(assume), 0, blob))
         # non-vacuity of the one-image theorem of C04: its decidable geometry hypothesis on this image
         if rd is not None:
